@@ -80,7 +80,8 @@ class History:
         cell = drv.cell
         if self.renew_request:
             self.renew_request = False
-            cands = drv.renew_candidates()
+            # 1 request in 4 may also hit an instance without a lease (its renewal cannot fail)
+            cands = drv.renew_candidates(with_leaseless=self.rng.random() < 0.25)
             if cands:
                 drv.op_renew(self.rng.choice(cands))
         pre = {n: dict(identity=a.identity, renew=a.renew, server=a.server)
